@@ -158,15 +158,18 @@ def _tdvp_ps_backward(ttns: TTNS, ttno: TTNO, ttne: TTNEnviron, coeff: Union[com
             stack.pop()
             continue
         ichild += 1
-        child = snode.children[ichild]
+        # visit the children in the reverse order of the forward sweep,
+        # so that the backward sweep is the adjoint of the forward one (second order splitting)
+        rchild = len(snode.children) - 1 - ichild
+        child = snode.children[rchild]
         # decompose, the first index for child, the second index for parent
-        ms = ttns.decompose_to_child(snode, ichild)
+        ms = ttns.decompose_to_child(snode, rchild)
         # update env
-        ttne.build_parent_environ_node(snode, ichild, ttns, ttno)
+        ttne.build_parent_environ_node(snode, rchild, ttns, ttno)
         # backward time evolution for snode
         shape = ms.shape
         ms, j = evolve_0site(ms, child, ttns, ttno, ttne, coeff, -tau)
-        ttns.merge_to_child(snode, ichild, ms.reshape(shape))
+        ttns.merge_to_child(snode, rchild, ms.reshape(shape))
         local_steps.append(j)
         stack[-1] = snode, ichild
         stack.append((child, -1))
